@@ -122,8 +122,12 @@ def apply_op(mab, op, catch=True):
         op = [name[:-6], list(op[1]) * t, list(op[2]) * t, ([list(r) for _ in range(t) for r in op[3]]
                                                              if op[3] is not None else None)]
         name = op[0]
+    if name in ("fit", "partial_fit") and isinstance(op[2], dict):
+        # rewards {"array": values, "dtype": name}: an ndarray of that dtype
+        op = [op[0], op[1], np.asarray(op[2]["array"], dtype=op[2]["dtype"]), op[3]]
     if name in ("fit", "partial_fit") and isinstance(op[3], dict):
-        op = [op[0], np.asarray(op[1]), np.asarray(op[2], dtype=float), _ctx(op[3])]
+        op = [op[0], np.asarray(op[1]), op[2] if isinstance(op[2], np.ndarray) else np.asarray(op[2], dtype=float),
+              _ctx(op[3])]
     try:
         if name == "fit":
             mab.fit(op[1], op[2], op[3]) if op[3] is not None else mab.fit(op[1], op[2])
